@@ -652,6 +652,9 @@ impl<'a> World<'a> {
             out::count("R4_order_ok", 1);
         }
         out::count("event_objects_attributed", ids.len() as u64);
+        if ids.len() > 255 {
+            out::count("fragments_with_more_than_255_events_attributed", 1);
+        }
         ids
     }
 
@@ -1808,6 +1811,17 @@ pub async fn scenario(a: &ShardArgs, check: &'static str, profile: &'static str,
             *r.pick(&[3u16, 10, 100])
         };
     }
+    // one scenario in ten can hold several hundred events of one type and transmit them in one fragment: object headers
+    // with more than 255 events
+    let burst_type: Option<usize> = if !small && r.chance(1, 10) {
+        let bt = r.usize_below(8);
+        cfg.event_cfg[bt] = *r.pick(&[300u16, 400]);
+        cfg.sol_tx = 2048;
+        cfg.unsol_tx = 2048;
+        Some(bt)
+    } else {
+        None
+    };
     let npt = r.range(1, 3) as u16;
     let mut pts = vec![];
     for t in 0..8 {
@@ -1879,6 +1893,17 @@ pub async fn scenario(a: &ShardArgs, check: &'static str, profile: &'static str,
         };
         match w.r.weighted(&weights) {
             0 => {
+                if let Some(bt) = burst_type {
+                    let cands: Vec<usize> = (0..w.pts.len()).filter(|i| w.pts[*i].t == bt && w.pts[*i].class.is_some()).collect();
+                    if !cands.is_empty() && w.r.chance(1, 3) {
+                        let p = *w.r.pick(&cands);
+                        let n = w.r.range(256, 300);
+                        for _ in 0..n {
+                            w.update(p);
+                        }
+                        out::count("bursts_of_more_than_255_events", 1);
+                    }
+                }
                 let k = w.r.range(1, 5);
                 for _ in 0..k {
                     let p = w.r.usize_below(w.pts.len());
